@@ -7,6 +7,7 @@ replacements, copy, deepcopy); after every operation the instance must be observ
 "equality": the full pair matrix of all instances.
 """
 
+import collections
 import collections.abc
 import copy
 import itertools
@@ -224,6 +225,8 @@ class Hooks(State):
 # instance from the caller's containers
 CATALOGUE.update(
     {
+        "MapS/kinds": (MapS, [lambda: {"m": collections.OrderedDict(ab=1, k=2)}, lambda: {"m": collections.defaultdict(int, ab=1)}, lambda: {"m": collections.Counter(ab=1, k=2)}, lambda: {"m": type("MyDict", (dict,), {})(ab=1)}]),
+        "Scalars/neg": (Scalars, [lambda: {"a": -1}, lambda: {"a": -2, "b": "", "c": -0.0}]),
         "Hooks": (Hooks, [lambda: {}, lambda: {"cb": hook_one, "anyv": hook_one, "runner": RUNNER_A, "n": 1}]),
         "SeqS/long": (SeqS, [lambda: {"items": list(range(16))}, lambda: {"items": list(range(17))}, lambda: {"items": list(range(40))}, lambda: {"items": list(range(300))}]),
         "SetS/long": (SetS, [lambda: {"tags": {f"t{i}" for i in range(17)}}, lambda: {"tags": {f"t{i}" for i in range(70)}}]),
@@ -271,6 +274,8 @@ REPLACE: dict[str, dict[str, tuple]] = {
 
 REPLACE.update(
     {
+        "MapS/kinds": {"m": (lambda: collections.OrderedDict(zz=9), {"k": "bad"}, 0)},
+        "Scalars/neg": {"a": (lambda: -2, "bad", ""), "b": (lambda: "z", 7, 0), "c": (lambda: 0.0, "bad", "")},
         "Hooks": {"cb": (lambda: hook_two, 7, 0), "anyv": (lambda: hook_two, None, None), "runner": (lambda: RUNNER_B, 7, 0)},
         "SeqS/long": {"items": (lambda: list(range(100, 120)), list(range(19)) + ["bad"], 0)},
         "SetS/long": {"tags": (lambda: {f"z{i}" for i in range(18)}, {f"z{i}" for i in range(18)} | {1}, 0)},
